@@ -38,7 +38,9 @@ CATALOGUE = ["{{a|b=c}}", "[[a|b]]", "<b a=\"c\">x</b>", "&amp;&#x41;&#65;", "==
              "{|a=b\n|+c\n!d!!e\n|-f=g\n|h||i\n|}", "{|\n|a=b|c\n|}", "{| a=\"b\n|c\n|}", ":a", "#a", ";a:b", "----", "[[a|b|c]]", "[[File:a.png|thumb|[[b]]]]",
              "[//a.b c]", "[http://a.b]", "[[http://a.b c]]", "http://a.b.", "x http://a.b(c) d", "xhttp://a.b", "{{a|b|c=d|e={{f}}}}", "{{{{a}}}}", "{{{{{a}}}}}",
              "{{a|\n==h==\n}}", "==a==b==\n", "=a=", "======a======", "== a\n", "&nbsp;&foo;&#xZ;&thetasym;", "<span style=\"a\" />", "<a<b>c</b>", "<b>c</a></b>",
-             "<b>''c</b>''", "{{a<b>}}</b>", "<ref>{{a}}</ref>", "<div\nclass=a\n>b</div\n>", "{{" * 20 + "a" + "}}" * 20, "{{foo|{{b}}{{c}}=d}}"]
+             "<b>''c</b>''", "{{a<b>}}</b>", "<ref>{{a}}</ref>", "<div\nclass=a\n>b</div\n>", "{{" * 20 + "a" + "}}" * 20, "{{foo|{{b}}{{c}}=d}}",
+             "<a\x00b>x</a\x00b>", "</b\x00r >", "<b\x00>", "<br\x00/>", "ht\x00tp://a.b", "[ht\x00tp://a.b c]", "<nowiki\x00>x</nowiki\x00>", "&#\u0661;",
+             "<\u00e9>x</\u00e9>", "</\u00e9 >", "<b\u0130>x</b\u0130>"]
 
 
 NCAT = len(CATALOGUE) * 6
